@@ -10,6 +10,7 @@ import (
 	"math"
 	"strconv"
 	"strings"
+	"sync/atomic"
 	"time"
 
 	sentinel "github.com/alibaba/sentinel-golang/api"
@@ -172,6 +173,38 @@ type Cell struct {
 // Final is the content of the three caches of one controller, most recently used first.
 type Final struct{ Time, Tok, Conc []Cell }
 
+// ---- watchdog -----------------------------------------------------------------------------
+// PerformChecking retries in a `for` loop; the property includes that it returns (the model
+// proves the spinning branch unreachable: C05_lockstep / C05_no_spin). If a changed
+// implementation spins, the harness must still produce a report with the input: Beat() is
+// called before every operation; when no beat arrives for `limit` of real time the stall
+// handler runs (it reports the running case and exits). Real time is only consulted on this
+// failure path; a run on a terminating implementation never depends on it.
+var beats uint64
+
+// Beat records progress of the driving goroutine.
+func Beat() { atomic.AddUint64(&beats, 1) }
+
+// StartWatchdog calls onStall (once) when Beat has not been called for limit.
+func StartWatchdog(limit time.Duration, onStall func()) {
+	go func() {
+		last := atomic.LoadUint64(&beats)
+		since := time.Now()
+		for {
+			time.Sleep(250 * time.Millisecond)
+			cur := atomic.LoadUint64(&beats)
+			if cur != last {
+				last, since = cur, time.Now()
+				continue
+			}
+			if time.Since(since) > limit {
+				onStall()
+				return
+			}
+		}
+	}()
+}
+
 func ResName(prefix string, id, res int) string {
 	return prefix + "-" + strconv.Itoa(id) + "-" + strconv.Itoa(res)
 }
@@ -258,6 +291,7 @@ func Run(prefix string, c Case, clk *vclock.Clock) (obs []Obs, finals [][]Final,
 	clk.TakeSleeps()
 	entries := make([]*base.SentinelEntry, len(c.Ops))
 	for i, o := range c.Ops {
+		Beat()
 		at := int64(clk.CurrentTimeMillis())
 		switch o.Kind {
 		case "tick":
